@@ -6,78 +6,85 @@
    any stats snapshot and any Accounting-Response outcome, process restarts, orphan prunes.  Its trace pairs every
    notification with the provider calls ISSUED (Start / Interim c ok / Stop c).  [drun] adds asynchronous delivery:
    the calls that ARRIVE at the provider when Start calls may be delayed.
-   Variants:  [V fs fo fl] = the code with the first three repairs plus any subset of fix_sent, fix_order, fix_l2stop;
-              [head] = V true false true = /repo HEAD (everything committed: 7e92d8e, e0693a6, d70a5ae, 9b87063, d95fed1);
-              [repaired] = V true true true = HEAD plus ordered delivery (the one finding still open);
-              [before_9b87063] = V false false false; [defective] = the code as first found.
-   Hypotheses:  lrun_wraps = false  — no uint64 cumulative wrapped (C09_no_wrap_if_total_small gives it from inputs);
-                no_prune = true     — the 5-minute orphan deadline never passed for the session.
+   Variants:  [V fs fo fl fp] = the code with the first three repairs plus any subset of fix_sent, fix_order, fix_l2stop,
+              fix_prune;  [head] = V true false true false = /repo HEAD (committed: 7e92d8e, e0693a6, d70a5ae, 9b87063,
+              d95fed1);  the two findings still open are fix_order (unordered goroutines, no patch: RepairSpec.v holds the
+              specification of that repair) and fix_prune (orphan prune without Stop, fixes/C09_stop_on_prune.patch);
+              [repaired] = V true true true true;  [before_9b87063] = V false false false false;
+              [defective] = the code as first found.
+   Hypotheses:  W  lrun_wraps = false — no uint64 cumulative wrapped; C09_no_wrap_if_total_small derives it from the
+                   readings alone, for every variant and access type;
+                P  no_prune = true — the 5-minute orphan deadline never passed for the session; needed at /repo HEAD
+                   (C09_prune_hypothesis_needed: known finding), not needed with fix_prune.
    [ETick sn false] is "Interim sent, no Accounting-Response (yet)"; [EAck] is a response arriving late.       *)
 From OV Require Import Common.Base C09.Model C09.Proofs.
 Open Scope N_scope.
 
-(* ================= uniform in fs fo fl: instantiate fs = fl = true, fo = false for /repo HEAD ================= *)
+(* ================= uniform in fs fo fl fp: instantiate fs = fl fp = true, fo = false for /repo HEAD ================= *)
 
 (* Conformance of the ISSUED calls to the bracket ledger (Model.mon_step), for all histories:
    first Active -> exactly one Start; Active/Restored again -> nothing; Restored never a Start;
    Released with accounting open -> exactly one Stop, >= the last acknowledged report (fs: and >= the last sent);
    Released otherwise -> nothing; a tick of an announced session -> exactly one Interim, same floor. *)
 Theorem C09_bracket :
-  forall fs fo fl g evs, lrun_wraps (V fs fo fl) g sst0 evs = false ->
-  accepted fs (snd (lrun (V fs fo fl) g sst0 evs)) = true.
+  forall fs fo fl fp g evs, lrun_wraps (V fs fo fl fp) g sst0 evs = false ->
+  accepted fs fp (snd (lrun (V fs fo fl fp) g sst0 evs)) = true.
 Proof. exact conforms. Qed.
 Print Assumptions C09_bracket.
 
 (* at most one Start per bracket, however often Active / Restored are repeated and across restarts *)
 Theorem C09_start_once :
-  forall fs fo fl g evs, lrun_wraps (V fs fo fl) g sst0 evs = false -> no_prune evs = true ->
-  bracketed false (outputs (snd (lrun (V fs fo fl) g sst0 evs))) = true.
+  forall fs fo fl fp g evs, lrun_wraps (V fs fo fl fp) g sst0 evs = false -> no_prune evs = true ->
+  bracketed false (outputs (snd (lrun (V fs fo fl fp) g sst0 evs))) = true.
 Proof. exact start_once. Qed.
 Print Assumptions C09_start_once.
 
 (* Stops only answer Released, at most one each, and never two without a new announcement in between *)
 Theorem C09_stop_once :
-  forall fs fo fl g evs, lrun_wraps (V fs fo fl) g sst0 evs = false ->
-  stops_ok false (snd (lrun (V fs fo fl) g sst0 evs)) = true.
+  forall fs fo fl fp g evs, lrun_wraps (V fs fo fl fp) g sst0 evs = false ->
+  stops_ok false (snd (lrun (V fs fo fl fp) g sst0 evs)) = true.
 Proof. exact stop_once. Qed.
 Print Assumptions C09_stop_once.
 
-(* a session that is never restored: the issued stream is a prefix of (Start Interim* Stop)* — no Interim or Stop
-   outside a bracket, no second Start inside one *)
-Theorem C09_strict_bracket_issued :
-  forall fs fo fl g evs, lrun_wraps (V fs fo fl) g sst0 evs = false -> no_prune evs = true ->
-  never_restored evs = true ->
-  strict false (outputs (snd (lrun (V fs fo fl) g sst0 evs))) = true.
-Proof. exact strict_issued. Qed.
-Print Assumptions C09_strict_bracket_issued.
+(* The bracket WITH restore, /repo HEAD (fix_sent): for every history - Active, restart, Restored, ticks, Released in any
+   order and multiplicity - the calls are a prefix of (Start Interim* Stop | Interim* Stop)*, and a bracket without
+   Start occurs only after a Restored notification (Model.strictT: BClosed / BQuiet / BOpen).  In particular a
+   restore never produces a second Start inside a bracket, and no Interim or Stop is sent outside one. *)
+Theorem C09_strict_bracket_with_restore :
+  forall fo fl fp g evs, lrun_wraps (V true fo fl fp) g sst0 evs = false -> (fp = true \/ no_prune evs = true) ->
+  strictT BClosed (snd (lrun (V true fo fl fp) g sst0 evs)) = true.
+Proof. exact strict_restore. Qed.
+Print Assumptions C09_strict_bracket_with_restore.
 
 (* every Interim and the Stop are >= the last ACKNOWLEDGED report of the bracket (all readings, failures, restarts) *)
 Theorem C09_monotone_acknowledged :
-  forall fs fo fl g evs, lrun_wraps (V fs fo fl) g sst0 evs = false -> no_prune evs = true ->
-  nondecreasing c4z (outputs (snd (lrun (V fs fo fl) g sst0 evs))) = true.
+  forall fs fo fl fp g evs, lrun_wraps (V fs fo fl fp) g sst0 evs = false -> no_prune evs = true ->
+  nondecreasing c4z (outputs (snd (lrun (V fs fo fl fp) g sst0 evs))) = true.
 Proof. exact monotone. Qed.
 Print Assumptions C09_monotone_acknowledged.
 
 (* "from one report to the next" (every value SENT) without the sent floor (code before 9b87063): only as long as
    no Accounting-Response is lost *)
 Theorem C09_monotone_sent_if_acknowledged :
-  forall fs fo fl g evs, lrun_wraps (V fs fo fl) g sst0 evs = false -> no_prune evs = true ->
+  forall fs fo fl fp g evs, lrun_wraps (V fs fo fl fp) g sst0 evs = false -> no_prune evs = true ->
   all_acked evs = true ->
-  nondecreasing_sent c4z (outputs (snd (lrun (V fs fo fl) g sst0 evs))) = true.
+  nondecreasing_sent c4z (outputs (snd (lrun (V fs fo fl fp) g sst0 evs))) = true.
 Proof. exact monotone_sent_if_acked. Qed.
 Print Assumptions C09_monotone_sent_if_acknowledged.
 
-(* input-only form of "the true total stays < 2^64" (sessions reading the interface table, HEAD floor) *)
+(* hypothesis W from the inputs alone, for every variant (in particular /repo HEAD) and every access type: if per
+   counter the sum of all readings occurring in the history (interface table and l2gw segment) is < 2^64, nothing wraps *)
 Theorem C09_no_wrap_if_total_small :
-  forall fo fl evs, c4_lt_W (total_readings evs) -> lrun_wraps (V false fo fl) false sst0 evs = false.
+  forall fs fo fl fp g evs, c4_lt_W (total_readings evs) -> lrun_wraps (V fs fo fl fp) g sst0 evs = false.
 Proof. exact no_wrap_if_total_small. Qed.
 Print Assumptions C09_no_wrap_if_total_small.
 
-Theorem C09_monotone_total :
-  forall fo fl evs, c4_lt_W (total_readings evs) -> no_prune evs = true ->
-  nondecreasing c4z (outputs (snd (lrun (V false fo fl) false sst0 evs))) = true.
-Proof. exact monotone_total. Qed.
-Print Assumptions C09_monotone_total.
+(* hence at /repo HEAD, with no hypothesis about the model's arithmetic: *)
+Theorem C09_monotone_sent_total :
+  forall fo fl fp g evs, c4_lt_W (total_readings evs) -> no_prune evs = true ->
+  nondecreasing_sent c4z (outputs (snd (lrun (V true fo fl fp) g sst0 evs))) = true.
+Proof. exact monotone_sent_total_noprune. Qed.
+Print Assumptions C09_monotone_sent_total.
 
 (* one report, any session state: never below the floor (last reported; with fix_sent also the last sent) *)
 Theorem C09_report_not_below_floor :
@@ -88,16 +95,16 @@ Print Assumptions C09_report_not_below_floor.
 
 (* repeated notifications are silent, from ANY component state s *)
 Theorem C09_repeated_announce_silent :
-  forall fs fo fl g s ev i h j k, (ev = EActive i h \/ ev = ERestored i h) ->
-  let s' := fst (lstep (V fs fo fl) g s ev) in
-  snd (lstep (V fs fo fl) g s' (EActive j k)) = [] /\ snd (lstep (V fs fo fl) g s' (ERestored j k)) = [].
+  forall fs fo fl fp g s ev i h j k, (ev = EActive i h \/ ev = ERestored i h) ->
+  let s' := fst (lstep (V fs fo fl fp) g s ev) in
+  snd (lstep (V fs fo fl fp) g s' (EActive j k)) = [] /\ snd (lstep (V fs fo fl fp) g s' (ERestored j k)) = [].
 Proof. exact after_announce_silent. Qed.
 Print Assumptions C09_repeated_announce_silent.
 
 Theorem C09_repeated_release_silent :
-  forall fs fo fl g s sn sn',
-  let s' := fst (lstep (V fs fo fl) g s (EReleased sn)) in
-  s' = sst0 /\ snd (lstep (V fs fo fl) g s' (EReleased sn')) = [].
+  forall fs fo fl fp g s sn sn',
+  let s' := fst (lstep (V fs fo fl fp) g s (EReleased sn)) in
+  s' = sst0 /\ snd (lstep (V fs fo fl fp) g s' (EReleased sn')) = [].
 Proof. exact after_release_silent. Qed.
 Print Assumptions C09_repeated_release_silent.
 
@@ -114,14 +121,6 @@ Theorem C09_component_is_product :
 Proof. exact component_is_product. Qed.
 Print Assumptions C09_component_is_product.
 
-(* when no call is delayed the calls arrive in the order they were issued (any variant) — this is the regime the
-   sequential correspondence harness enforces *)
-Theorem C09_arrival_is_issue_when_no_delay :
-  forall v g xs d, no_delay xs = true -> d_hs d = false -> d_held d = [] ->
-  snd (drun v g d xs) = snd (fst (drun v g d xs)).
-Proof. exact arrived_eq_issued. Qed.
-Print Assumptions C09_arrival_is_issue_when_no_delay.
-
 (* ---- plugins/auth/radius/accounting.go: the counters on the RADIUS wire ---- *)
 Theorem C09_wire_roundtrip :
   forall st c, wire_range c = true -> decode_wire (encode_wire st c) = c.
@@ -135,46 +134,34 @@ Proof. exact wire_monotone. Qed.
 Print Assumptions C09_wire_monotone.
 
 Theorem C09_monotone_on_wire :
-  forall fs fo fl g evs, lrun_wraps (V fs fo fl) g sst0 evs = false -> no_prune evs = true ->
-  forallb (fun o => wire_range (counters_of o)) (outputs (snd (lrun (V fs fo fl) g sst0 evs))) = true ->
-  nondecreasing c4z (map through_wire (outputs (snd (lrun (V fs fo fl) g sst0 evs)))) = true.
+  forall fs fo fl fp g evs, lrun_wraps (V fs fo fl fp) g sst0 evs = false -> no_prune evs = true ->
+  forallb (fun o => wire_range (counters_of o)) (outputs (snd (lrun (V fs fo fl fp) g sst0 evs))) = true ->
+  nondecreasing c4z (map through_wire (outputs (snd (lrun (V fs fo fl fp) g sst0 evs)))) = true.
 Proof. exact monotone_on_wire. Qed.
 Print Assumptions C09_monotone_on_wire.
 
-(* ================= /repo HEAD (fs = true), and ordered delivery (fo = true, still open) ================= *)
+(* ================= /repo HEAD (fs = true); fix_prune (open finding with patch) ================= *)
 
 (* /repo HEAD: every Interim and the Stop are >= the last report SENT, acknowledged or not, in flight or not — all
    histories, including a release while an Interim is unanswered ([ETick _ false; EReleased _]) and late responses *)
 Theorem C09_monotone_sent :
-  forall fo fl g evs, lrun_wraps (V true fo fl) g sst0 evs = false -> no_prune evs = true ->
-  nondecreasing_sent c4z (outputs (snd (lrun (V true fo fl) g sst0 evs))) = true.
+  forall fo fl fp g evs, lrun_wraps (V true fo fl fp) g sst0 evs = false -> no_prune evs = true ->
+  nondecreasing_sent c4z (outputs (snd (lrun (V true fo fl fp) g sst0 evs))) = true.
 Proof. exact monotone_sent. Qed.
 Print Assumptions C09_monotone_sent.
 
-(* fix_order: whatever is delayed, the calls that have ARRIVED followed by those still held are exactly the calls
-   issued, in issue order *)
-Theorem C09_arrival_is_prefix_of_issue :
-  forall fs fl g xs,
-  let '(d', iss, arr) := drun (V fs true fl) g dst0 xs in arr ++ d_held d' = iss.
-Proof. exact arrived_prefix. Qed.
-Print Assumptions C09_arrival_is_prefix_of_issue.
+(* fix_prune (fixes/C09_stop_on_prune.patch): no hypothesis about pruning - a pruned orphan is closed with a Stop *)
+Theorem C09_start_once_prune_closed :
+  forall fs fo fl g evs, lrun_wraps (V fs fo fl true) g sst0 evs = false ->
+  bracketed false (outputs (snd (lrun (V fs fo fl true) g sst0 evs))) = true.
+Proof. exact start_once_p. Qed.
+Print Assumptions C09_start_once_prune_closed.
 
-(* hence the stream SEEN BY THE BACKEND is strictly bracketed ... *)
-Theorem C09_delivered_strict :
-  forall fs fl g xs,
-  lrun_wraps (V fs true fl) g sst0 (dev_events xs) = false -> no_prune (dev_events xs) = true ->
-  never_restored (dev_events xs) = true ->
-  strict false (snd (drun (V fs true fl) g dst0 xs)) = true.
-Proof. exact delivered_strict. Qed.
-Print Assumptions C09_delivered_strict.
-
-(* ... and (with fix_sent) never goes backwards from one arrived report to the next *)
-Theorem C09_delivered_monotone_sent :
-  forall fl g xs,
-  lrun_wraps (V true true fl) g sst0 (dev_events xs) = false -> no_prune (dev_events xs) = true ->
-  nondecreasing_sent c4z (snd (drun (V true true fl) g dst0 xs)) = true.
-Proof. exact delivered_monotone_sent. Qed.
-Print Assumptions C09_delivered_monotone_sent.
+Theorem C09_monotone_sent_prune_closed :
+  forall fo fl g evs, c4_lt_W (total_readings evs) ->
+  nondecreasing_sent c4z (outputs (snd (lrun (V true fo fl true) g sst0 evs))) = true.
+Proof. exact monotone_sent_total. Qed.
+Print Assumptions C09_monotone_sent_prune_closed.
 
 (* ================= non-vacuity ================= *)
 Definition rd (i a : N) : snaps := Snaps (Some [(i, C4 a (a / 2) (a / 100) (a / 200))]) None.
@@ -248,8 +235,9 @@ Qed.
 Print Assumptions C09_wrap_hypothesis_needed.
 
 Example C09_prune_hypothesis_needed :
-  exists evs, lrun_wraps repaired false sst0 evs = false /\ no_prune evs = false /\
-              nondecreasing c4z (outputs (snd (lrun repaired false sst0 evs))) = false.
+  exists evs, lrun_wraps head false sst0 evs = false /\ no_prune evs = false /\
+              nondecreasing c4z (outputs (snd (lrun head false sst0 evs))) = false /\
+              nondecreasing c4z (outputs (snd (lrun repaired false sst0 evs))) = true.
 Proof.
   exists [EActive 5 0; ETick (rd 5 1000) true; ERestart; EPrune true; ERestored 5 0; ETick (rd 5 5) true].
   vm_compute. auto.
@@ -275,6 +263,17 @@ Theorem C09_delivered_strict_refuted :
              strict false (snd (drun head false dst0 xs)) = false.
 Proof. exists [DHold true; DEv (EActive 5 0); DEv (EReleased (rd 5 9)); DRelease]. vm_compute. auto. Qed.
 Print Assumptions C09_delivered_strict_refuted.
+
+(* known finding pruneOrphanedAcctEntries-drops-accounting-without-stop: the accounting of a session whose restore did
+   not arrive within 5 minutes of a restart is dropped without a Stop; when the session is announced again the backend
+   sees a second Start without Stop *)
+Theorem C09_prune_without_stop_refuted :
+  exists evs, lrun_wraps head false sst0 evs = false /\
+              bracketed false (outputs (snd (lrun head false sst0 evs))) = false /\
+              strictT BClosed (snd (lrun head false sst0 evs)) = false /\
+              bracketed false (outputs (snd (lrun repaired false sst0 evs))) = true.
+Proof. exists [EActive 5 0; ERestart; EPrune true; EActive 5 0]. vm_compute. auto. Qed.
+Print Assumptions C09_prune_without_stop_refuted.
 
 (* ================= historical: fixed in /repo ================= *)
 (* fixed in 9b87063: a report whose Accounting-Response was lost (2000) was followed by a smaller one (1005) *)
